@@ -131,12 +131,12 @@ def _child(args, path):
 
 def run_tasks(tasks, root, procs=None, use_cache=True):
     """One forked process per task, at most `procs` at a time, longest first.  A task that exceeds the
-    wall-clock limit (PYVC_TASK_LIMIT_S, default 1500 s) is killed and reported as undecided
+    wall-clock limit (PYVC_TASK_LIMIT_S, default 900 s) is killed and reported as undecided
     (out-of-subset: no verdict either way) so that a check always terminates."""
     import tempfile
     import time
     procs = procs or int(os.environ.get("PYVC_PROCS", "16"))
-    limit = float(os.environ.get("PYVC_TASK_LIMIT_S", "1500"))
+    limit = float(os.environ.get("PYVC_TASK_LIMIT_S", "900"))
     cdir = cache_dir(root)
     order = sorted(range(len(tasks)), key=lambda i: -getattr(tasks[i], "weight", 1))
     out = [None] * len(tasks)
@@ -174,7 +174,11 @@ def run_tasks(tasks, root, procs=None, use_cache=True):
                     except Exception:      # noqa
                         pass
                     del running[pid]
-                    out[i] = {"task": getattr(tasks[i], "name", "?"), "function": getattr(tasks[i], "name", "?"), "status": "out-of-subset", "obligations": [],
+                    try:
+                        dep = task_dep(tasks[i])
+                    except Exception:      # noqa
+                        dep = None
+                    out[i] = {"task": getattr(tasks[i], "name", "?"), "function": getattr(tasks[i], "name", "?"), "status": "out-of-subset", "obligations": [], "dep": dep,
                               "detail": "the verification task exceeded its wall-clock limit of %d s and was stopped (no verdict)" % limit}
     finally:
         for pid in running:
